@@ -242,7 +242,9 @@ def el_bad():
         st.sampled_from(["bogus", "max-shortcircuit", "Output", "optimize"]).map(lambda n: (BAD, ["--" + n, "1"], ("unknown-option",))),
         st.sampled_from(["-Ox", "-O", "-O1.5", "-O2x"]).map(lambda s: (BAD, [s], ("bad-level",))),
         st.sampled_from(["-O4", "-O9", "-O17"]).map(lambda s: (SOFT, [s], ("high-level",))),
-        st.sampled_from(["-O-1"]).map(lambda s: (SOFT, [s], ("neg-level",))),
+        st.sampled_from(["-O-1", "-O-3"]).map(lambda s: (BAD, [s], ("neg-level",))),
+        st.sampled_from(["eof-support=maybe", "eof-support=ON", "eof-support=", "yield-support=2", "hook-global=nope"]).map(lambda s: (BAD, ["--flag", s], ("bad-flag-value",))),
+        st.sampled_from(["-tjunk", "-t1", "-t-O3"]).map(lambda s: (BAD, [s], ("junk-after-switch",))),
         st.sampled_from(["eof-support=yes=no", "a=b=c", "=="]).map(lambda s: (BAD, ["--flag", s], ("multi-eq",))),
         st.sampled_from(["-dfoo", "-d", "-ddfa,bar", "--dump=dfa"]).map(
             lambda s: (BAD, [s] if not s.startswith("--") else [s, "x"], ("bad-dump",))),
